@@ -11,8 +11,6 @@ from qv.lib import QHooks
 
 NONE, CREATED, DIRTY, FLUSHED, SYNCED, BROKEN = 'NONE', 'CREATED', 'DIRTY', 'FLUSHED', 'SYNCED', 'BROKEN'
 ENOENT, EIO = 2, 5
-FNMAKE = {'fnmake_info': 'info', 'fnmake_todo': 'todo', 'fnmake_mess': 'mess', 'fnmake_foop': 'foop',
-          'fnmake_split': 'split', 'fnmake_chanaddr': 'chan'}
 BYTE = frozenset(range(-128, 128))
 
 
@@ -45,20 +43,28 @@ class SendHooks(QHooks):
     def count(self, k):
         self.counts[k] = self.counts.get(k, 0) + 1
 
-    # ---- names
-    def _fnmake(self, E, x, args, key='$fn'):
-        role = FNMAKE.get(x.callee)
-        if role == 'chan':
-            c = args[1]
-            cv = next(iter(c)) if c is not TOP and len(c) == 1 else '?'
-            role = ('chan', cv)
-        E.set(key, fs(role))
-        return [Outcome(ret=TOP)]
+    # ---- names: every queue file name is made by fmtqfn(buffer, directory prefix, id, split flag); the role is the prefix
+    CHANDIR = {'local/': 0, 'remote/': 1}
 
-    prim_fnmake_info = prim_fnmake_todo = prim_fnmake_mess = prim_fnmake_foop = prim_fnmake_split = prim_fnmake_chanaddr = _fnmake
-
-    def prim_fnmake2_bounce(self, E, x, args):
-        E.set('$fn2', fs('bounce'))
+    def prim_fmtqfn(self, E, x, args):
+        p = x.args[0].path()
+        if p not in ('G:fn.s', 'G:fn2.s'):
+            v = args[0]
+            tgt = next(iter(v)) if v is not TOP and len(v) == 1 else None
+            p = {'G:fn.s[0]': 'G:fn.s', 'G:fn2.s[0]': 'G:fn2.s'}.get(tgt[1] if isinstance(tgt, tuple) and tgt[0] == '&' else None)
+            if p is None:
+                return [Outcome(ret=TOP)]       # a length query (fmtqfn(0,..)) or another buffer
+        dv = args[1]
+        strs = {e[1] for e in dv if isinstance(e, tuple) and e[0] == 'str'} if dv is not TOP else set()
+        if dv is not TOP and len(strs) == len(dv) and len(strs) == 1:
+            d = next(iter(strs))
+            role = ('chan', self.CHANDIR[d]) if d in self.CHANDIR else DIRROLE.get(d, ('lit', d))
+        elif strs and strs <= set(self.CHANDIR) and len(strs) == len(dv):
+            role = ('chan', '?')
+        else:
+            q = x.args[1].path()
+            role = ('chan', '?') if q is not None and q.startswith('G:chanaddr[') else '?'
+        E.set('$fn' if p == 'G:fn.s' else '$fn2', fs(role))
         return [Outcome(ret=TOP)]
 
     def role_of(self, E, argx):
@@ -2227,8 +2233,41 @@ def attach(rule, sites, prefixes=None, only=None, exclude=()):
     return n
 
 
-def _role_name(c):
-    return 'bounce' if c.callee == 'fnmake2_bounce' else FNMAKE.get(c.callee)
+DIRROLE = {'info/': 'info', 'todo/': 'todo', 'mess/': 'mess', 'foop/': 'foop', '': 'split', 'bounce/': 'bounce',
+           'local/': 'chan', 'remote/': 'chan', 'intd/': 'intd', 'pid/': 'pid'}
+
+
+def _dir_role(f, argx):
+    """role named by a directory-prefix argument of fmtqfn() (or of a helper that passes it on): a literal, a cell of
+    chanaddr[], or ('param', k) when it is f's own k-th parameter"""
+    a = argx.strip()
+    if a.string is not None:
+        return DIRROLE.get(a.string, ('lit', a.string))
+    p = a.path()
+    if p is not None and p.startswith('G:chanaddr['):
+        return 'chan'
+    if p is not None and p in f.params:
+        return ('param', f.params.index(p))
+    return None
+
+
+def _call_role(prog, f, c, which, depth):
+    """role that call c (inside f) leaves in `which` (fn.s / fn2.s): a role, ('param', k) of f, 'deferred', or None if it does not set it"""
+    if c.callee == 'fmtqfn' and c.args and c.args[0].path() == which:
+        r = _dir_role(f, c.args[1])
+        return r if r is not None else 'deferred'
+    if not c.callee or depth >= 4:
+        return None
+    g = prog.resolve(c.callee, f.unit)
+    if g is None or not g.blocks or g.unit != f.unit or g.name == f.name:
+        return None
+    r = exit_role(prog, g, which, depth + 1)
+    if isinstance(r, tuple) and r[0] == 'param':
+        r = _dir_role(f, c.args[r[1]]) if r[1] < len(c.args) else None
+        return r if r is not None else 'deferred'
+    if r is not None:
+        return r
+    return 'deferred' if _sets_name(prog, g, which) else None     # leaves different names on different paths: only a path-sensitive run can tell
 
 
 def exit_role(prog, f, which, depth=0):
@@ -2249,7 +2288,7 @@ def exit_role(prog, f, which, depth=0):
             if f.exit in b.succs and b.elems:
                 ends.append(f.x(b.elems[-1]['i']))
     for e in ends:
-        r = _resolve_local(prog, f, e, which, depth)
+        r = _resolve_local(prog, f, e, which, depth, at_exit=True)
         roles.add(r)
     res = next(iter(roles)) if len(roles) == 1 and None not in roles else None
     cache[key] = res
@@ -2261,7 +2300,7 @@ def _sets_name(prog, g, which, seen=()):
     if g.name in seen:
         return False
     for c in g.calls():
-        if (c.callee in FNMAKE and which == 'G:fn.s') or (c.callee == 'fnmake2_bounce' and which == 'G:fn2.s'):
+        if c.callee == 'fmtqfn' and c.args and c.args[0].path() == which:
             return True
         h = prog.resolve(c.callee, g.unit) if c.callee else None
         if h is not None and h.blocks and h.unit == g.unit and _sets_name(prog, h, which, seen + (g.name,)):
@@ -2272,22 +2311,16 @@ def _sets_name(prog, g, which, seen=()):
 def _makers(prog, f, which, depth):
     out = []
     for c in f.calls():
-        if (c.callee in FNMAKE and which == 'G:fn.s') or (c.callee == 'fnmake2_bounce' and which == 'G:fn2.s'):
-            out.append((c, _role_name(c)))
-        elif c.callee and depth < 3:
-            g = prog.resolve(c.callee, f.unit)
-            if g is not None and g.blocks and g.unit == f.unit and g.name != f.name:
-                r = exit_role(prog, g, which, depth + 1)
-                if r is not None:
-                    out.append((c, r))
-                elif _sets_name(prog, g, which):
-                    out.append((c, 'deferred'))     # leaves different names on different paths: only a path-sensitive run can tell
+        r = _call_role(prog, f, c, which, depth)
+        if r is not None:
+            out.append((c, r))
     return out
 
 
-def _resolve_local(prog, f, x, which, depth):
+def _resolve_local(prog, f, x, which, depth, at_exit=False):
     """role at element x inside f from the makers of f alone: reaching definitions over the flow graph.
-    None if the name may still be the caller's on some path; one role; or ('ambiguous', role, role...) if several reach."""
+    None if the name may still be the caller's on some path; one role; or ('ambiguous', role, role...) if several reach.
+    at_exit: x is a last element of f, and a maker that is x itself counts."""
     makers = _makers(prog, f, which, depth)
     if not makers:
         return None
@@ -2316,7 +2349,7 @@ def _resolve_local(prog, f, x, which, depth):
         return None
     st = IN[bx]
     for im, r in by_block.get(bx, []):
-        if im < ix:
+        if im < ix or (at_exit and im == ix):
             st = frozenset([r])
     if '<caller>' in st:
         return None
@@ -2383,6 +2416,62 @@ SEND_TABLE = {
     ('addbounce', 'open_append', 'bounce'): 'bounce text accumulates in bounce/<n>',
     ('pqfinish', 'utimes', 'chan'): 'retry time saved in the channel file\'s mtime at shutdown',
 }
+
+
+class MarkHooks(SendHooks, libtab.SAConc):
+    """markdone(channel 1, message 7, position 4000) with every system call succeeding: what reaches the channel file"""
+    def __init__(self):
+        SendHooks.__init__(self)
+        self.ev = []
+        self.ends = 0
+
+    def tracked_global(self, path):
+        return True
+
+    def precise_arith(self, path):
+        return True
+
+    def prim_open_write(self, E, x, args):
+        self.ev.append(('open', g1(E, '$fn')))
+        return [Outcome(ret=fs(5))]
+
+    def prim_fstat(self, E, x, args):
+        return [Outcome(ret=fs(0))]
+
+    def prim_seek_set(self, E, x, args):
+        self.ev.append(('seek', libtab._one(args[0]), libtab._one(args[1])))
+        return [Outcome(ret=fs(0))]
+
+    def prim_lseek(self, E, x, args):
+        self.ev.append(('seek', libtab._one(args[0]), libtab._one(args[1]) if libtab._one(args[2]) == 0 else ('whence', libtab._one(args[2]))))
+        return [Outcome(ret=args[1])]
+
+    def prim_write(self, E, x, args):
+        n = libtab._one(args[2])
+        data = self.mem(E, libtab._one(args[1]), n) if isinstance(n, int) and 0 <= n < 64 else None
+        self.ev.append(('write', libtab._one(args[0]), data))
+        return [Outcome(ret=args[2])]
+
+    def prim_close(self, E, x, args):
+        self.ev.append(('close', libtab._one(args[0])))
+        return [Outcome(ret=fs(0))]
+
+    def on_return(self, E, fn, val):
+        if fn.name == 'markdone':
+            self.ends += 1
+
+
+def markdone_site(db, prog):
+    md = prog.fn('markdone', 'qmail-send.c')
+    H = MarkHooks()
+    e = Engine(db, prog, H, max_states=20000)
+    fid = e.frame_id(md)
+    e.run(md, {'%s::%s' % (fid, md.params[0]): fs(1), '%s::%s' % (fid, md.params[1]): fs(7), '%s::%s' % (fid, md.params[2]): fs(4000)})
+    if H.ends != 1:
+        raise AnalysisBroken('markdone: %d ends with every system call succeeding' % H.ends)
+    touching = [v for v in H.ev if v[0] in ('seek', 'write')]
+    ok = H.ev[:1] == [('open', ('chan', 1))] and touching == [('seek', 5, 4000), ('write', 5, b'D')]
+    return (ok, md.unit + ':markdone', 'markdone(channel 1, message 7, position 4000) does %s; documented: open the channel file, seek to 4000, write the one byte "D"' % (H.ev,), [])
 
 
 def effect_sites(db):
@@ -2452,10 +2541,5 @@ def effect_sites(db):
     if n < 9:
         raise AnalysisBroken('qmail-send.c: only %d effect sites resolved (confirmed minimum 9)' % n)
     # markdone writes exactly one byte "D" at pos
-    md = prog.fn('markdone', 'qmail-send.c')
-    ws = md.calls('write')
-    okw = len(ws) == 1 and ws[0].args[1].string == 'D' and ws[0].args[2].const == 1
-    sk = md.calls('seek_set')
-    oks = bool(sk) and sk[0].args[1].path() == 'P:pos' and bool(ws) and md.dominates(sk[0], ws[0])
-    out['effect:markdone-writes-one-byte-D-at-pos'] = (okw and oks, md.unit + ':markdone', 'markdone() must seek to pos and write exactly the byte "D"', [])
+    out['effect:markdone-writes-one-byte-D-at-pos'] = markdone_site(db, prog)
     return out
